@@ -1,1 +1,54 @@
-import RosedVerif.Spec.Pos
+/-
+C04 — Character selection and counting are grapheme-exact for all positions.
+Property theorems only (helpers: Model/PosLemmas.lean, Gem/Theory.lean).  Stated for instance A:
+code points + the real segmentation (`cxA`), whose well-formedness comes from the finite-state theory.
+-/
+import RosedVerif.Model.InstAFacts
+namespace RosedVerif.Props
+open RosedVerif
+
+/-- util.RangeToIndexes is the documented normalisation: negative positions count from the end,
+out-of-range positions clamp, an end before the start gives the empty range at the start —
+for ALL integers -/
+theorem C04_range (n s e : Int) (hn : 0 ≤ n) : rangeToIndexes n s e = Spec.normRangeRaw n s e :=
+  rangeToIndexes_eq n s e hn
+
+/-- **C04**: for every text (any code points, any cluster ordering) and every pair of integer
+positions (negative, End, out of range, reversed), `Chars` returns exactly the clusters of the
+documented normalised range, as a sub-editor whose byte range is [|before|, |before ++ selected|) -/
+theorem C04 (ed : Editor Int) (s e : Int) :
+    ed.chars cxA s e =
+      .ok (.sub (Spec.selectClusters cxA ed.text s e).2.1 ed.opts ed
+        (byteLen cxA (Spec.selectClusters cxA ed.text s e).1)
+        (byteLen cxA ((Spec.selectClusters cxA ed.text s e).1 ++
+          (Spec.selectClusters cxA ed.text s e).2.1))) :=
+  Editor.chars_eq_spec cxA_WF ed s e
+
+/-- the parts before, inside and after a selection concatenate to the original text (so a
+selection never splits a cluster or a UTF-8 sequence: the three parts are whole clusters) -/
+theorem C04_concat (t : List Int) (s e : Int) :
+    (Spec.selectClusters cxA t s e).1 ++ (Spec.selectClusters cxA t s e).2.1 ++
+      (Spec.selectClusters cxA t s e).2.2 = t :=
+  selectClusters_concat cxA_WF t s e
+
+/-- CharCount is the number of clusters -/
+theorem C04_charCount (ed : Editor Int) : ed.charCount cxA = (clusters cxA ed.text).length :=
+  Editor.charCount_eq cxA ed
+
+/-- CharsFrom(s) = Chars(s, End), CharsTo(e) = Chars(0, e) -/
+theorem C04_charsFrom (ed : Editor Int) (s : Int) : ed.charsFrom cxA s = ed.chars cxA s Gen.endSentinel :=
+  Editor.charsFrom_eq_chars_end cxA_WF ed s
+
+theorem C04_charsTo (ed : Editor Int) (e : Int) : ed.charsTo cxA e = ed.chars cxA 0 e := rfl
+
+/-- cluster boundaries partition the code points: strictly increasing, ending at the length,
+no empty cluster — for arbitrary rune values -/
+theorem C04_partition (s : List Int) : Part (splitRunes s) s.length := part_splitRunes s
+
+/-! non-vacuity: a decomposed é, a flag and a lone mark; negative, End and reversed positions -/
+example : (Spec.selectClusters cxA [0x65, 0x301, 0x1F1E9, 0x1F1EA, 0x301, 0x61] (-2) Gen.endSentinel) =
+    ([0x65, 0x301], [0x1F1E9, 0x1F1EA, 0x301, 0x61], []) := by decide +kernel
+example : (Spec.selectClusters cxA [0x65, 0x301, 0x61, 0x62] 2 1) = ([0x65, 0x301, 0x61], [], [0x62]) := by
+  decide +kernel
+
+end RosedVerif.Props
